@@ -511,3 +511,22 @@ for _B in my_betas:
         ___
 """) or has(f.node, "for _B in my_betas:\n    _I = self.data.betaNames.index(_B)\n    _VALS[_B] = self.data.betas[_I].value")
     ctx.add(rule, 'bioResults.get_beta_values', ok, f, 'the value of a requested name is betas[betaNames.index(name)]' if ok else 'estimates are no longer looked up through betaNames.index(name)', 'get_beta_values')
+    f = BR.methods['get_betas_for_sensitivity_analysis']
+    from .pattern import _parse, m_node
+
+    comps = [c for c in walk_no_nested(f.node) if isinstance(c, ast.ListComp) and isinstance(c.elt, ast.DictComp)]
+    ok = len(comps) >= 2
+    det = ''
+    for c in comps:
+        b = {}
+        good = m_node(_parse('[{my_betas[_I]: _V for _I, _V in enumerate(_ROW)} for _ROW in __M[:, _IDX]]')[0].value, c, b)
+        if good:
+            # the columns are those of the requested names, in the order of the request
+            defs = [a for a in walk_no_nested(f.node) if isinstance(a, ast.Assign) and unparse(a.targets[0]) == b['_IDX'] and a.lineno < c.lineno]
+            good = bool(defs) and all(m_node(_parse('[self.data.betaNames.index(_B) for _B in my_betas]')[0].value, a.value, {}) for a in defs)
+        if not good:
+            ok = False
+            det = unparse(c)[:160]
+    ctx.add(rule, 'bioResults.get_betas_for_sensitivity_analysis', ok, f,
+            'column betaNames.index(name) of the draws is reported under that name, for the names requested and in their order' if ok
+            else f'draws of the estimates are no longer labelled my_betas[i] over the columns [betaNames.index(b) for b in my_betas]: {det}', det)
